@@ -27,7 +27,7 @@ class Fn:
 
 def parse_functions(text):
     fns = {}
-    for m in re.finditer(r'^const (.+?::promoted\[\d+\]): (.*?) = \{\n(.*?)^\}', text, re.S | re.M):
+    for m in re.finditer(r'^const ([^\n]+?::promoted\[\d+\]): ([^\n]*?) = \{\n(.*?)^\}', text, re.S | re.M):
         blocks = {}
         for bm in re.finditer(r'^    (bb\d+)(?: \(cleanup\))?: \{\n(.*?)^    \}', m.group(3), re.S | re.M):
             blocks[bm.group(1)] = [l.strip() for l in bm.group(2).split('\n') if l.strip()]
@@ -184,6 +184,9 @@ def eval_operand(fr, s, ctx):
             if key in PROMOTED: return Ref(Cell(PROMOTED[key]))
             pname = CURRENT_FN[-1].name + '::promoted[%s]' % mp.group(1)
             if pname in FNS: return run_fn(pname, [], ctx)
+            stripped = re.sub(r'::<[^<>]*>', '', c)
+            cands = [n for n in FNS if 'promoted[' in n and (stripped == n or stripped.endswith('::' + n))]
+            if len(cands) == 1: return run_fn(cands[0], [], ctx)
             raise NotEncodable('promoted constant ' + c)
         if c in ('true', 'false'): return c == 'true'
         if c.startswith('b"'):
@@ -848,7 +851,7 @@ def call(fr, callee, args, ctx):
     m = re.fullmatch(r'(?:\w+::)*(\w+)(?:::<[^>]*>)?::(\w+)', c)
     if m:      # inherent method written Type::method: resolve to the impl fn with that receiver type
         ty, meth = m.group(1), m.group(2)
-        cands = [n for n, f in FNS.items() if n.endswith('::' + meth) and '<impl at' in n and re.match(r'_1: &?(mut )?%s\b' % re.escape(ty), f.ptext)]
+        cands = [n for n, f in FNS.items() if n.endswith('::' + meth) and '<impl at' in n and re.match(r'_1: &?(mut )?(?:\w+::)*%s\b' % re.escape(ty), f.ptext)]
         if len(cands) == 1: return run_fn(cands[0], args, ctx)
     m = re.fullmatch(r'<(.+) as (\w+)(<.*>)?>::(\w+)', c)
     if m:      # trait method call on a type of the dumped crates: resolve to the impl fn by receiver / result type
